@@ -13,6 +13,11 @@ input classes of every entry (main loop, prev_hedge, fit_num): the call spelled 
 (hedge, n_epochs, n_paths, n_times[, optimizer, init_state, verbose, validation, tqdm_kwargs]) given BY POSITION; runs whose training /
 validation losses become inf / nan (learning rate far too large, overflowing exponential criterion; float64 and float32): still k steps,
 k returned losses = the explicit loop's (NaN matches NaN), same parameters.
+lazy models (all three loops): besides torch's LazyLinear (which turns into Linear when materialised) a USER-DEFINED lazy layer (LazyModuleMixin subclass with
+cls_to_become = None: lazy-typed for ever), handed to fit with its parameters uninitialised (optimiser class) or materialised by the caller's own placeholder
+forward (optimiser class and instance).  predicate: the batches fit asks the derivative to simulate (recorded by the derivative) are the k training and k * n_times
+validation batches of the requested size, preceded by the documented single-path placeholder batch iff the model has uninitialised parameters and the optimiser
+is a class (key fit:batches); parameters vs the explicit loop as always.  The "fit" op gets lazy = "has uninitialised parameters when fit is called".
 """
 import copy
 import math
@@ -37,6 +42,58 @@ def call_fit(fit, d, form, **opts):
     if any(nm not in opts for nm in lead):
         raise InternalError(f"call_fit: positional form needs {lead}")
     return call_impl(fit, d, *[opts[nm] for nm in lead], **{k_: v_ for k_, v_ in opts.items() if k_ not in lead})
+
+
+_USER_LAZY = {}
+
+
+def user_lazy_layer(torch):
+    """a USER-DEFINED lazy layer, written as torch documents it (torch.nn.modules.lazy.LazyModuleMixin): y = x W^T + b with the number of
+    input features inferred at the first forward.  `cls_to_become` is left at None, so - unlike torch's own LazyLinear, which turns into
+    Linear - the module keeps its (lazy) class after its parameters were materialised.  What makes a model "lazy" for fit() is that it HAS
+    uninitialised parameters, not the type of its layers."""
+    if "cls" not in _USER_LAZY:
+        from torch.nn.modules.lazy import LazyModuleMixin
+        from torch.nn.parameter import UninitializedParameter
+
+        class LazyAffine(LazyModuleMixin, torch.nn.Module):
+            cls_to_become = None
+
+            def __init__(self, out_features, dtype=None):
+                super().__init__()
+                self.out_features = out_features
+                self.weight = UninitializedParameter(dtype=dtype)
+                self.bias = UninitializedParameter(dtype=dtype)
+
+            def initialize_parameters(self, input):
+                if self.has_uninitialized_params():
+                    with torch.no_grad():
+                        self.weight.materialize((self.out_features, input.shape[-1]))
+                        self.bias.materialize((self.out_features,))
+                        bound = 1 / math.sqrt(input.shape[-1])
+                        self.weight.uniform_(-bound, bound)
+                        self.bias.uniform_(-bound, bound)
+
+            def forward(self, input):
+                return torch.nn.functional.linear(input, self.weight, self.bias)
+        _USER_LAZY["cls"] = LazyAffine
+    return _USER_LAZY["cls"]
+
+
+def expected_batches(k, n_paths, n_times, validation, placeholder):
+    """the batches the documented protocol simulates, in order: per epoch one training batch and, with validation, n_times validation batches,
+    all of the requested size; before them ONE placeholder batch of a single path if (and only if) fit has to materialise uninitialised
+    parameters before it can construct the optimiser from a class"""
+    return ([1] if placeholder else []) + [n_paths] * (k * (1 + (n_times if validation else 0)))
+
+
+def recording_option(I, sims):
+    """EuropeanOption that records the size of every batch it is asked to simulate"""
+    class RecOption(I.EuropeanOption):
+        def simulate(self, n_paths=1, init_state=None):
+            sims.append(int(n_paths))
+            super().simulate(n_paths=n_paths, init_state=init_state)
+    return RecOption
 
 
 def same_tensor(torch, a, b, nan_ok=False):
@@ -85,12 +142,23 @@ def check(ctx):
     # thorough tier: the protocol's configuration space is small and discrete - enumerate it COMPLETELY first
     # (epochs x n_times x optimiser form x lazy x validation x explicit hedge list), then continue with random cases
     import itertools
-    forced = []
+    # the model: without lazy layers / with torch's LazyLinear / with a USER-DEFINED lazy layer (stays lazy-TYPED when materialised), each of the
+    # lazy ones handed to fit with its parameters still uninitialised or materialised by the caller's own placeholder forward (an optimiser
+    # INSTANCE needs the parameters: always materialised)
+    LAZY_SPACE = [(False, None, False)] + [(True, kind_, mat_) for kind_ in ("torch", "user") for mat_ in (False, True)]
+    lazy_ok = lambda ok_, lz_: not (ok_ == "instance" and lz_[0] and not lz_[2])
     if ctx.tier == "thorough":
         forced = [dict(k=k_, n_times=nt_, optkind=ok_, lazy=lz_, validation=va_, hedge_list=hl_)
-                  for k_, nt_, ok_, lz_, va_, hl_ in itertools.product([0, 1, 2, 3], [1, 2, 3], ["cls", "instance"], [False, True], [False, True], [False, True])]
+                  for k_, nt_, ok_, lz_, va_, hl_ in itertools.product([0, 1, 2, 3], [1, 2, 3], ["cls", "instance"], LAZY_SPACE, [False, True], [False, True])
+                  if lazy_ok(ok_, lz_)]
         ctx.extra["exhaustive_configurations"] = len(forced)
-        ctx.extra["exhaustive_space"] = "epochs {0..3} x n_times {1,2,3} x optimiser {class, instance} x lazy x validation x hedge list"
+        ctx.extra["exhaustive_space"] = ("epochs {0..3} x n_times {1,2,3} x optimiser {class, instance} x model {no lazy layer, torch LazyLinear, user-defined lazy "
+                                         "layer; the lazy ones uninitialised (class only) / materialised by the caller} x validation x hedge list")
+    else:
+        # every tier: the lazy-model corner of that space as a deterministic corpus (does not depend on the seed)
+        forced = [dict(k=k_, n_times=1, optkind=ok_, lazy=lz_, validation=va_, hedge_list=False)
+                  for k_, ok_, lz_, va_ in itertools.product([0, 2], ["cls", "instance"], LAZY_SPACE[1:], [True, False]) if lazy_ok(ok_, lz_)]
+        ctx.extra["lazy_corpus_configurations"] = len(forced)
     for it in range(n + len(forced)):
         k = g.choice([0, 1, 2, 3, 7]) if ctx.tier == "thorough" else g.choice([0, 1, 2, 3])
         n_paths = g.choice([1, 4, 16])
@@ -98,6 +166,8 @@ def check(ctx):
         with_init = g.chance(0.4)
         optkind = g.weighted([("cls", 4), ("instance", 3), ("other", 0.5)])
         lazy = g.chance(0.3)
+        lazy_kind = g.choice(["torch", "user"])
+        premat = g.chance(0.5)      # the caller materialises the lazy parameters (placeholder forward, as the docstring of fit recommends) before fit
         validation = g.chance(0.7)
         hedge_list = g.chance(0.3)
         optname = g.choice(["SGD", "Adam"])
@@ -121,19 +191,24 @@ def check(ctx):
             lr = g.choice([1e20, 1e30])      # OCE owns a float32 parameter: torch refuses a step size beyond the float32 range
         if it < len(forced):
             f_ = forced[it]
-            k, n_times, optkind, lazy, validation, hedge_list = f_["k"], f_["n_times"], f_["optkind"], f_["lazy"], f_["validation"], f_["hedge_list"]
+            k, n_times, optkind, validation, hedge_list = f_["k"], f_["n_times"], f_["optkind"], f_["validation"], f_["hedge_list"]
+            lazy, lazy_kind, premat = f_["lazy"]
+        lazy_kind = lazy_kind if lazy else None
+        materialised = bool(lazy and (premat or optkind == "instance"))      # by the caller, before fit
+        uninit = lazy and not materialised                                   # fit() meets uninitialised parameters
         case = {"epochs": k, "n_paths": n_paths, "n_times": n_times, "with_init": with_init, "opt": optkind, "optimizer": optname,
-                "lazy": lazy, "validation": validation, "hedge_list": hedge_list, "seed": seed, "criterion": crit_name, "wide_optimizer": wide and optkind == "instance", "call_form": call_form}
+                "lazy": lazy, "lazy_kind": lazy_kind, "materialised": materialised if lazy else None, "validation": validation, "hedge_list": hedge_list, "seed": seed, "criterion": crit_name, "wide_optimizer": wide and optkind == "instance", "call_form": call_form}
         if diverge:
             case |= {"diverge": diverge, "dtype": str(dtc).replace("torch.", ""), "lr": lr}
         # failure keys of the new input classes are their own call sites
-        sfx = ("" if call_form == "keyword" else ":positional") + (":nonfinite-loss" if diverge else "")
+        sfx = (":user-lazy" if lazy_kind == "user" else "") + ("" if call_form == "keyword" else ":positional") + (":nonfinite-loss" if diverge else "")
         events = []
 
         def build():
             torch.manual_seed(seed)
             if lazy:
-                model = torch.nn.Sequential(torch.nn.LazyLinear(3, dtype=dtc), torch.nn.ReLU(), torch.nn.Linear(3, 1, dtype=dtc))
+                first = torch.nn.LazyLinear(3, dtype=dtc) if lazy_kind == "torch" else user_lazy_layer(torch)(3, dtype=dtc)
+                model = torch.nn.Sequential(first, torch.nn.ReLU(), torch.nn.Linear(3, 1, dtype=dtc))
             else:
                 model = torch.nn.Sequential(torch.nn.Linear(2, 3, dtype=dtc), torch.nn.ReLU(), torch.nn.Linear(3, 1, dtype=dtc))
             if diverge == "scale":
@@ -199,13 +274,15 @@ def check(ctx):
         hedger, d, stock, crit = make_hedger()
         init_state = (1.25,) if with_init else None
         hedge = [stock] if hedge_list else None
+        if materialised:      # the caller's own placeholder forward (an optimiser instance needs the parameters to exist)
+            d.simulate(n_paths=1)
+            hedger.compute_pl(d)
+            events.clear()
+            if lazy_kind == "user" and not isinstance(hedger.model[0], torch.nn.modules.lazy.LazyModuleMixin):
+                raise InternalError("the user-defined lazy layer is expected to keep its class")
         if optkind == "cls":
             opt = LogOpt
         elif optkind == "instance":
-            if lazy:      # parameters must exist to build an instance: materialise first (user's job)
-                d.simulate(n_paths=1)
-                hedger.compute_pl(d)
-                events.clear()
             opt = LogOpt(hedger.parameters() if wide else hedger.model.parameters())
             events.clear()
         else:
@@ -225,29 +302,31 @@ def check(ctx):
         evs = []
         for e in events:
             evs.append(e)
-            if lazy and optkind == "cls" and len(evs) == 1 and e[0] == "simulate":
+            if uninit and optkind == "cls" and len(evs) == 1 and e[0] == "simulate":
                 evs.append(["placeholder_pl"])
         # each validation epoch ends with history.append: not observable as an event; derive from the returned history
         ctx.case(case, nontrivial=k >= 1, tag="fit")
         ctx.traces += 1
         for key in ("opt", "lazy", "validation", "call_form"):
             ctx.stats[f"{key}={case[key]}"] += 1
+        if lazy:
+            ctx.stats[f"lazy:{lazy_kind}/{'materialised' if materialised else 'uninitialised'}/{optkind}"] += 1
         if diverge:
             ctx.stats[f"diverge={diverge}"] += 1
         ctx.stats[f"epochs={k}"] += 1
         reqs.append({"op": "fit", "epochs": k, "n_paths": n_paths, "n_times": n_times, "with_init": with_init,
-                     "opt": optkind, "lazy": lazy and optkind != "instance", "validation": validation, "start_training": True})
+                     "opt": optkind, "lazy": uninit, "validation": validation, "start_training": True})
         metas.append((case, st, hist, evs))
 
         def explicit_loop():
             """the documented protocol written out: simulate / loss / backward / step per epoch, n_times validation evaluations without
             gradients in evaluation mode, under the same seed.  An exception of torch / the optimiser itself is caught and reported"""
             hedger2, d2, stock2, crit2 = make_hedger()
-            if lazy and optkind == "instance":
+            if materialised:
                 d2.simulate(n_paths=1)
                 hedger2.compute_pl(d2)
             torch.manual_seed(seed + 1)
-            if lazy and optkind == "cls":
+            if uninit and optkind == "cls":
                 # fit materialises the lazy parameters by a placeholder simulate(1) + compute_pl AFTER the seed
                 # was set and BEFORE constructing the optimiser: replay exactly that
                 d2.simulate(n_paths=1)
@@ -302,6 +381,17 @@ def check(ctx):
         nsteps = sum(1 for e in evs if e[0] == "step")
         if nsteps != k:
             ctx.fail("fit did not perform exactly one optimiser step per epoch", case, key="fit:steps" + sfx, detail={"steps": nsteps})
+        # the batches fit asked the derivative to simulate, as recorded by the derivative: k training batches and (validation) k * n_times validation
+        # batches of the requested size - what the explicit loop simulates - and nothing else; the one exception is the documented single-path
+        # placeholder batch when fit itself has to materialise uninitialised parameters before constructing the optimiser from a class.  A model
+        # whose parameters all exist (never lazy, or materialised by the caller - whatever the TYPE of its layers) gets no such batch
+        sims = [e[1] for e in evs if e[0] == "simulate"]
+        want_sims = expected_batches(k, n_paths, n_times, validation, placeholder=uninit and optkind == "cls")
+        if sims != want_sims:
+            ctx.fail("fit simulated other batches (number / sizes) than the k training and k * n_times validation batches of the requested size"
+                     + (" preceded by the single-path placeholder batch that materialises the uninitialised parameters" if uninit else
+                        "; the model has no uninitialised parameter" + (" (materialised by the caller before fit)" if lazy else "")),
+                     case, key="fit:batches" + sfx, detail={"simulated": sims[:40], "expected": want_sims[:40]})
         if validation:
             if not (isinstance(hist, list) and len(hist) == k):
                 ctx.fail("fit did not return one validation loss per epoch", case, key="fit:history" + sfx, detail=str(hist)[:100])
@@ -433,6 +523,10 @@ def check(ctx):
              "returned history and the gradient at every optimiser step, relative tolerance 1e-9 on the max-norm; step and evaluation "
              "counts exactly; cases within 2^-20 of a kink (|position change| / |first position| with a non-zero cost rate, ReLU, ES tie) "
              "or, for Adam, with a gradient component in (0, 1e-6) are rejected and counted (fit_num_rejected_near_kink); "
+             "lazy models: torch.nn.LazyLinear and a user-defined lazy layer (LazyModuleMixin, cls_to_become = None) as first layer, uninitialised (optimiser class: "
+             "fit's placeholder batch replayed by the explicit loop) or materialised by the caller (class and instance), as a deterministic corpus on every tier "
+             "(main loop: 24 configurations; hand-unrolled loop: 4; fit_num: the first 3 attempts) and at random; simulated batches (number, sizes, order) "
+             "recorded by the derivative = [1 if uninitialised and class] + k x (1 + n_times if validation) x [n_paths], exactly, in all three loops; "
              "call forms (all three loops): keywords / hedge, n_epochs, n_paths, n_times by position / all nine documented options by position; "
              "diverging runs (main loop: float64 and float32, SGD/Adam lr in {1e150, 1e300} resp. {1e20, 1e30}, or last layer x 2^40 under "
              "OCE(exp) / EntropicLoss: steps, history length, history values = means of the explicit loop's evaluations with inf / nan, parameters "
@@ -517,8 +611,17 @@ def check_prev_hedge(ctx, torch, g):
         with_init = g.chance(0.3)
         seed = g.randint(0, 10 ** 6)
         call_form = gen_call_form(g)
-        sfx = "" if call_form == "keyword" else ":positional"
-        case = {"prev_hedge": True, "call_form": call_form, "inputs": names, "epochs": k, "n_paths": n_paths, "n_steps": n_steps, "n_times": n_times,
+        # the first layer a USER-DEFINED lazy layer (lazy-typed for ever): materialised by the caller's own placeholder forward, or - optimiser
+        # given as a class - left to fit, which then simulates ONE single-path batch and runs a forward before constructing the optimiser
+        lazy_user = g.chance(0.3)
+        materialised = lazy_user and (optkind == "instance" or g.chance(0.5))
+        uninit = lazy_user and not materialised
+        if it < 4:      # on every tier, for every seed
+            lazy_user, materialised, uninit, optkind = True, it < 3, it == 3, ("cls", "cls", "instance", "cls")[it]
+        if uninit:
+            gain = 1.0      # (the first layer's weight does not exist yet)
+        sfx = (":user-lazy" if lazy_user else "") + ("" if call_form == "keyword" else ":positional")
+        case = {"prev_hedge": True, "lazy_kind": "user" if lazy_user else None, "materialised": materialised if lazy_user else None, "call_form": call_form, "inputs": names, "epochs": k, "n_paths": n_paths, "n_steps": n_steps, "n_times": n_times,
                 "validation": validation, "opt": optkind, "optimizer": optname, "lr": lr, "criterion": crit_name, "width": width,
                 "activation": act, "prev_hedge_gain": gain, "call": call, "strike": strike, "cost": cost, "with_init": with_init, "seed": seed}
         ctx.case(case, nontrivial=True, tag="fit_prev_hedge")
@@ -528,14 +631,18 @@ def check_prev_hedge(ctx, torch, g):
 
         def build():
             torch.manual_seed(seed)
-            model = torch.nn.Sequential(torch.nn.Linear(len(names), width, dtype=dt), getattr(torch.nn, act)(),
-                                        torch.nn.Linear(width, 1, dtype=dt))
-            with torch.no_grad():
-                model[0].weight[:, names.index("prev_hedge")] *= gain
+            first = user_lazy_layer(torch)(width, dtype=dt) if lazy_user else torch.nn.Linear(len(names), width, dtype=dt)
+            model = torch.nn.Sequential(first, getattr(torch.nn, act)(), torch.nn.Linear(width, 1, dtype=dt))
+            if materialised:
+                model(torch.zeros(1, len(names), dtype=dt))      # the caller's placeholder forward
+            if not uninit:
+                with torch.no_grad():
+                    model[0].weight[:, names.index("prev_hedge")] *= gain
             crit = {"erm": lambda: nn.EntropicRiskMeasure(), "es": lambda: nn.ExpectedShortfall(0.5), "oce": lambda: OCE(exp_utility)}[crit_name]()
             stock = I.BrownianStock(cost=cost, dtype=dt)
-            d = I.EuropeanOption(stock, call=call, strike=strike, maturity=n_steps / 250)
+            d = recording_option(I, sims)(stock, call=call, strike=strike, maturity=n_steps / 250)
             return model, crit, d
+        sims = []
         model, crit, d = build()
         hedger = Hedger(model, list(names), criterion=crit)
         base_opt = getattr(torch.optim, optname)
@@ -558,6 +665,9 @@ def check_prev_hedge(ctx, torch, g):
         st, hist, _ = call_fit(hedger.fit, d, call_form, hedge=None, n_epochs=k, n_paths=n_paths, n_times=n_times, optimizer=opt,
                                init_state=init_state, verbose=False, validation=validation)
         ctx.stats[f"prev_hedge:call_form={call_form}"] += 1
+        if lazy_user:
+            ctx.stats[f"prev_hedge:user-lazy/{'materialised' if materialised else 'uninitialised'}/{optkind}"] += 1
+        fit_sims = list(sims)
         if st != "ok":
             ctx.fail("fit raised for a hedger with prev_hedge among its inputs", case, key="fit:prev-hedge:error" + sfx, detail=hist)
             continue
@@ -567,6 +677,12 @@ def check_prev_hedge(ctx, torch, g):
         if (hist is None) != (not validation) or (validation and len(hist) != k):
             ctx.fail("fit did not return one validation loss per epoch (None when validation is off)", case, key="fit:history" + sfx, detail=str(hist)[:100])
             continue
+        want_sims = expected_batches(k, n_paths, n_times, validation, placeholder=uninit and optkind == "cls")
+        if fit_sims != want_sims:
+            ctx.fail("fit simulated other batches (number / sizes) than the k training and k * n_times validation batches of the requested size"
+                     + (" preceded by the single-path placeholder batch that materialises the uninitialised parameters" if uninit else
+                        "; the model has no uninitialised parameter" + (" (materialised by the caller before fit)" if lazy_user else "")),
+                     case, key="fit:batches" + sfx, detail={"simulated": fit_sims[:40], "expected": want_sims[:40]})
         # (a) the gradient present at every optimiser step = gradient of the hand-unrolled loss of that batch at those parameters
         for ep, (present, hand, _) in enumerate(steps):
             if any(x is None for x in present) or any(x is None for x in hand):
@@ -585,6 +701,11 @@ def check_prev_hedge(ctx, torch, g):
         # (b) parameters after fit = parameters after the explicit simulate / hand-unrolled loss / backward / step loop, same seed
         model2, crit2, d2 = build()
         torch.manual_seed(seed + 1)
+        if uninit:
+            # fit materialises the lazy parameters by a placeholder simulate(1) + forward after the seed was set and before constructing
+            # the optimiser: the explicit loop's own placeholder batch and forward
+            d2.simulate(n_paths=1)
+            model2(torch.zeros(1, len(names), dtype=dt))
         ref_opt = base_opt(model2.parameters(), lr=lr)
         for ep in range(k):
             model2.train()
@@ -674,6 +795,9 @@ def check_fit_num(ctx, torch):
         with_init = g.chance(0.3)
         seed = g.randint(0, 10 ** 6)
         call_form = gen_call_form(g)
+        # the first layer a user-defined lazy layer (keeps its lazy class), materialised by the caller's placeholder forward: the model has no
+        # uninitialised parameter, fit is the same protocol on the same batches as for a Linear layer holding these numbers
+        lazy_user = g.chance(0.25) or attempts <= 3
         # runs that leave the finite range (see the main loop): a learning rate far too large, or an entropic loss that overflows on the
         # first batch.  The counts (optimiser steps, criterion evaluations, history length) are compared with the model exactly as
         # always; the numbers up to the first epoch in which a loss / gradient / parameter is non-finite or beyond 1e100
@@ -683,8 +807,8 @@ def check_fit_num(ctx, torch):
             okw["lr"] = lr
         if diverge == "scale":
             crit_name = "eloss"
-        sfx = ("" if call_form == "keyword" else ":positional") + (":nonfinite-loss" if diverge else "")
-        case = {"fit_num": True, "call_form": call_form, "diverge": diverge, "epochs": k, "n_paths": n_paths, "n_steps": n_steps, "n_times": n_times, "validation": validation,
+        sfx = (":user-lazy" if lazy_user else "") + ("" if call_form == "keyword" else ":positional") + (":nonfinite-loss" if diverge else "")
+        case = {"fit_num": True, "lazy_kind": "user" if lazy_user else None, "materialised": True if lazy_user else None, "call_form": call_form, "diverge": diverge, "epochs": k, "n_paths": n_paths, "n_steps": n_steps, "n_times": n_times, "validation": validation,
                 "opt": optkind, "optimizer": optname, "lr": lr, "momentum": momentum, "weight_decay": wd, "H": H, "inputs": names,
                 "relu_mlp": relu, "hidden": hid if relu else None, "criterion": crit_name, "a": a, "es_k": kk, "call": call, "strike": strike,
                 "cost": cost, "cost2": cost2 if H == 2 else None, "listed_pricer": [pa, pb] if H == 2 else None, "with_init": with_init, "seed": seed}
@@ -692,10 +816,13 @@ def check_fit_num(ctx, torch):
 
         def build():
             torch.manual_seed(seed)
+            first = (lambda out_: user_lazy_layer(torch)(out_, dtype=dt)) if lazy_user else (lambda out_: torch.nn.Linear(width, out_, dtype=dt))
             if relu:
-                model = torch.nn.Sequential(torch.nn.Linear(width, hid, dtype=dt), torch.nn.ReLU(), torch.nn.Linear(hid, H, dtype=dt))
+                model = torch.nn.Sequential(first(hid), torch.nn.ReLU(), torch.nn.Linear(hid, H, dtype=dt))
             else:
-                model = torch.nn.Linear(width, H, dtype=dt)
+                model = first(H)
+            if lazy_user:
+                model(torch.zeros(1, width, dtype=dt))      # the caller's placeholder forward
             if diverge == "scale":
                 with torch.no_grad():
                     last = model[2] if relu else model
@@ -704,7 +831,7 @@ def check_fit_num(ctx, torch):
             crit = {"erm": lambda: nn.EntropicRiskMeasure(a), "es": lambda: nn.ExpectedShortfall(kk / n_paths),
                     "eloss": lambda: nn.EntropicLoss(a), "mse": lambda: torch.nn.MSELoss()}[crit_name]()
             stock = I.BrownianStock(cost=cost, dtype=dt)
-            d = I.EuropeanOption(stock, call=call, strike=strike, maturity=n_steps / 250)
+            d = recording_option(I, sims)(stock, call=call, strike=strike, maturity=n_steps / 250)
             hedge = [stock]
             if H == 2:
                 o = I.EuropeanOption(stock, maturity=n_steps / 250)
@@ -712,6 +839,7 @@ def check_fit_num(ctx, torch):
                 hedge.append(o)
             return model, crit, d, stock, hedge
         crit_spec = {"erm": ["erm", float_bits(a)], "es": ["es", kk], "eloss": ["eloss", float_bits(a)], "mse": ["mse"]}[crit_name]
+        sims = []
         model, crit, d, stock, hedge = build()
         log = []          # (gradients enabled, value) of every criterion evaluation of the real fit
 
@@ -740,6 +868,11 @@ def check_fit_num(ctx, torch):
         torch.manual_seed(seed + 1)
         st, hist, _ = call_fit(hedger.fit, d, call_form, hedge=hedge, n_epochs=k, n_paths=n_paths, n_times=n_times, optimizer=opt,
                                init_state=init_state, verbose=False, validation=validation)
+        fit_sims = list(sims)
+        if st == "ok" and fit_sims != expected_batches(k, n_paths, n_times, validation, placeholder=False):
+            ctx.fail("fit simulated other batches (number / sizes) than the k training and k * n_times validation batches of the requested size; the model "
+                     "has no uninitialised parameter" + (" (materialised by the caller before fit)" if lazy_user else ""),
+                     case, key="fit:batches" + sfx, detail={"simulated": fit_sims[:40], "expected": expected_batches(k, n_paths, n_times, validation, False)[:40]})
         # ---- the twin: the batches of the run, re-simulated under the same seed, and the kinks on the reference trajectory
         model2, crit2, d2, stock2, hedge2 = build()
         hedger2 = Hedger(model2, list(names), criterion=crit2)
@@ -828,7 +961,7 @@ def check_fit_num(ctx, torch):
             if twin_err is not None:
                 continue
         for key_ in (f"fit_num:call_form={call_form}", f"fit_num:diverge={diverge}", f"fit_num:opt={optkind}/{optname}", f"fit_num:epochs={k}", f"fit_num:crit={crit_name}", f"fit_num:H={H}",
-                     f"fit_num:prev_hedge={prev}", f"fit_num:cost>0={cost > 0 or (H == 2 and cost2 > 0)}", f"fit_num:validation={validation}"):
+                     f"fit_num:prev_hedge={prev}", f"fit_num:user_lazy_layer={lazy_user}", f"fit_num:cost>0={cost > 0 or (H == 2 and cost2 > 0)}", f"fit_num:validation={validation}"):
             ctx.stats[key_] += 1
         if kink or small_grad:
             rejected += 1
